@@ -462,7 +462,31 @@ def _sym_match(self: SymInterp, s: ast.Match, st: Sym) -> Outcome:
 def _sym_stmt(self: SymInterp, s: ast.stmt, st: Sym) -> Outcome:
     if isinstance(s, ast.Match):
         return _sym_match(self, s, st)
+    if isinstance(s, ast.Assign) and isinstance(s.value, ast.IfExp):
+        # `x = a if c else b` is the two-armed if
+        as_if = ast.If(test=s.value.test,
+                       body=[ast.copy_location(ast.Assign(targets=s.targets, value=s.value.body), s)],
+                       orelse=[ast.copy_location(ast.Assign(targets=s.targets, value=s.value.orelse), s)])
+        ast.copy_location(as_if, s)
+        return PathInterp.stmt(self, as_if, st)
     return PathInterp.stmt(self, s, st)
 
 
 SymInterp.stmt = _sym_stmt  # type: ignore[method-assign]
+
+
+def _sym_try(self: SymInterp, s: ast.Try, st: Sym, out: Outcome) -> None:
+    """As PathInterp._try, plus the implicit exceptions: each handler is also entered from the state at the start of the try
+    block (the guarded statements raised before completing), recorded as the decision `<Exc> raised`."""
+    PathInterp._try(self, s, st, out)
+    if s.finalbody:
+        return
+    for h in s.handlers:
+        exc = ast.unparse(h.type) if h.type is not None else "BaseException"
+        hst = st.cond(f"{exc} raised", True)
+        if h.name:
+            hst = hst.set(h.name, f"CAUGHT({exc})")
+        out.absorb(self.block(h.body, [hst]))
+
+
+SymInterp._try = _sym_try  # type: ignore[method-assign]
